@@ -163,6 +163,40 @@ func c38(c *an.Check) {
 				})
 			}}}})
 	}
+	confparseKeyGates(c)
+	// totality of all configuration parsers
+	if bce := peerBCE(c, "./util/confparse", "./tptaddr", "./tptaddr/static", "./protocol", "./peer"); bce != nil {
+		var fns []*ssa.Function
+		// the peer-id decode chain behind ParsePeerID(s) / ParsePeerAddressMap
+		if dec := one(pkgFuncsWhere(p, "peer", func(f *ssa.Function) bool { return callsAny(f, cUvarint) })); dec != nil {
+			fns = append(fns, dec)
+		} else {
+			c.Undecided("PANIC", "peer multihash decoder", nil, "unresolved anchor")
+		}
+		fns = append(fns, p.Func("peer", "", "IDB58Decode"), p.Func("peer", "", "IDFromBytes"))
+		for _, f := range p.PkgFuncs("util/confparse") {
+			if f.Parent() == nil {
+				fns = append(fns, f)
+			}
+		}
+		fns = append(fns, pt, pm, pv, p.Func("protocol", "ID", "String"))
+		c.Totality(an.PanicSpec{Construct: "configuration parser totality", Funcs: fns, BCE: bce, Min: 18, Reviewed: map[string]string{}})
+		c.Note(fmt.Sprintf("totality scanned %d configuration parser functions", len(fns)))
+	}
+	c.Trust("strings.Cut/TrimSpace/Contains, sort.Strings, slices.Compact", "net/url, time, regexp parsers of the standard library never panic", "base58 Decode")
+}
+
+func init() {
+	register(&Def{ID: "C38", Run: c38,
+		Explain:     "Decides on SSA: protocol.ID.Validate succeeds only for non-empty ids for which utf8.ValidString(id) is true and errors only on those two conditions; ParseTptAddr succeeds only when the delimiter was found and both halves are non-empty, returning the two halves of strings.Cut(input); ParsePeerAddressMap records an address only past (delimiter found, address part has a transport delimiter, peer id decodes), keyed by the decoded id's canonical string, appends decode errors to its error list, and writes every list back as slices.Compact of the sort.Strings-ed list; confparse key parsers reject non-base58 text, return keys only from the PEM parser or base58+protobuf decode, and the PEM wrappers return (nil,nil) only for empty input; (PANIC) no undischarged panic site in any top-level function of util/confparse, ParseTptAddr, ParsePeerAddressMap, protocol.ID and the peer-id decode chain (IDB58Decode, IDFromBytes, multihash decoder) they rest on.",
+		NotCov:      "format∘parse identities (value-level round trips) and the standard library parsers they delegate to.",
+		Assumptions: commonAssumptions})
+}
+
+// confparseKeyGates: the textual key parsers return a key only from the PEM parser or from base58+protobuf decoding,
+// report undecodable text as an error, and yield (nil, nil) only for empty input (shared by C38 and C11).
+func confparseKeyGates(c *an.Check) {
+	p := c.P
 	// confparse key parsers: an undecodable base58 string is an error; PEM inputs go through the PEM parser
 	for _, w := range []struct{ fn, pem, un string }{{"ParsePublicKey", "ParsePublicKeyPEM", "UnmarshalPublicKey"}, {"ParsePrivateKey", "ParsePrivateKeyPEM", "UnmarshalPrivateKey"}} {
 		f := p.Func("util/confparse", "", w.fn)
@@ -202,31 +236,4 @@ func c38(c *an.Check) {
 				return r == an.EQ && an.IsIntConst(y, 0) && an.LenOf(s, x, func(a ssa.Value) bool { return an.IsParam(a, 0) })
 			})}})
 	}
-	// totality of all configuration parsers
-	if bce := peerBCE(c, "./util/confparse", "./tptaddr", "./tptaddr/static", "./protocol", "./peer"); bce != nil {
-		var fns []*ssa.Function
-		// the peer-id decode chain behind ParsePeerID(s) / ParsePeerAddressMap
-		if dec := one(pkgFuncsWhere(p, "peer", func(f *ssa.Function) bool { return callsAny(f, cUvarint) })); dec != nil {
-			fns = append(fns, dec)
-		} else {
-			c.Undecided("PANIC", "peer multihash decoder", nil, "unresolved anchor")
-		}
-		fns = append(fns, p.Func("peer", "", "IDB58Decode"), p.Func("peer", "", "IDFromBytes"))
-		for _, f := range p.PkgFuncs("util/confparse") {
-			if f.Parent() == nil {
-				fns = append(fns, f)
-			}
-		}
-		fns = append(fns, pt, pm, pv, p.Func("protocol", "ID", "String"))
-		c.Totality(an.PanicSpec{Construct: "configuration parser totality", Funcs: fns, BCE: bce, Min: 18, Reviewed: map[string]string{}})
-		c.Note(fmt.Sprintf("totality scanned %d configuration parser functions", len(fns)))
-	}
-	c.Trust("strings.Cut/TrimSpace/Contains, sort.Strings, slices.Compact", "net/url, time, regexp parsers of the standard library never panic", "base58 Decode")
-}
-
-func init() {
-	register(&Def{ID: "C38", Run: c38,
-		Explain:     "Decides on SSA: protocol.ID.Validate succeeds only for non-empty ids for which utf8.ValidString(id) is true and errors only on those two conditions; ParseTptAddr succeeds only when the delimiter was found and both halves are non-empty, returning the two halves of strings.Cut(input); ParsePeerAddressMap records an address only past (delimiter found, address part has a transport delimiter, peer id decodes), keyed by the decoded id's canonical string, appends decode errors to its error list, and writes every list back as slices.Compact of the sort.Strings-ed list; confparse key parsers reject non-base58 text, return keys only from the PEM parser or base58+protobuf decode, and the PEM wrappers return (nil,nil) only for empty input; (PANIC) no undischarged panic site in any top-level function of util/confparse, ParseTptAddr, ParsePeerAddressMap, protocol.ID and the peer-id decode chain (IDB58Decode, IDFromBytes, multihash decoder) they rest on.",
-		NotCov:      "format∘parse identities (value-level round trips) and the standard library parsers they delegate to.",
-		Assumptions: commonAssumptions})
 }
